@@ -119,6 +119,8 @@ type realisation struct {
 	reopen      bool // reopen between the base commit and the block
 	cache       int
 	junkFirst   bool // write other values to the same keys first (overwritten later)
+	// balAddSub: balance writes are made with AddBalance/SubBalance of the difference instead of SetBalance
+	balAddSub bool
 	// lag: the base block is flushed but only committed after the block under test was executed and flushed
 	// (readers and the next block then see the base block through the account cache only); production cache size only
 	lag bool
@@ -199,7 +201,9 @@ func rootFor(base, w *netWrites, r *realisation) (string, error) {
 		}
 	}
 	for i, idx := range r.order {
-		applyWrites(l, []lwrite{ops[idx]})
+		o := ops[idx]
+		o.addSub = r.balAddSub
+		applyWrites(l, []lwrite{o})
 		if r.txSplit > 0 && i+1 == r.txSplit {
 			l.Finalise(true)
 		}
@@ -256,6 +260,7 @@ func drawRealisation(t *rapid.T, n int, label string) *realisation {
 	r.reopen = rapid.Bool().Draw(t, label+"-reopen")
 	r.cache = rapid.SampledFrom([]int{0, 0, 1, 4}).Draw(t, label+"-cache")
 	r.lag = rapid.Bool().Draw(t, label+"-lag")
+	r.balAddSub = rapid.Bool().Draw(t, label+"-addsub")
 	if n > 1 {
 		r.txSplit = rapid.IntRange(0, n-1).Draw(t, label+"-split")
 	}
@@ -337,19 +342,6 @@ func c10StateProperty(t *rapid.T) {
 	// 1. every realisation of the same net write set gives the same root
 	for i := 0; i < 3; i++ {
 		r := drawRealisation(t, nOps, fmt.Sprintf("r%d", i))
-		if sim.KFOpen("KF-C10-noop-scalar-write") && r.noise {
-			// known finding: a reverted scalar write leaves the account marked as touched; keep the rest of the realisation
-			onlyStorage := true
-			for _, o := range w.ops() {
-				if o.kind == "balance" || o.kind == "nonce" {
-					onlyStorage = false
-				}
-			}
-			if !onlyStorage {
-				sim.StatsFor("C10").KnownFinding("KF-C10-noop-scalar-write", desc())
-				r.noise = false
-			}
-		}
 		rootB, err := rootFor(base, w, r)
 		if err != nil {
 			t.Fatalf("C10 harness: %v", err)
